@@ -48,7 +48,7 @@ func emptyAlt() SAlt         { return SAlt{Empty: true} }
 func errAlt(syms ...Sym) SAlt { return SAlt{Err: true, Body: syms} }
 
 // Families is the list of template families GenSyntax knows.
-var Families = []string{"expr", "list", "stmts", "brackets", "random", "lr1notlalr", "nullable", "long", "random", "random", "nulllist", "nulllist", "nulltails", "lr2", "wide", "firstchain", "errorder", "optafter", "errdeep"}
+var Families = []string{"expr", "list", "stmts", "brackets", "random", "lr1notlalr", "nullable", "long", "random", "random", "nulllist", "nulllist", "nulltails", "lr2", "wide", "firstchain", "errorder", "optafter", "errdeep", "deadnt"}
 
 // BoundaryFamilies are shapes near the LR(1) boundary (used on top of Families by C04).
 var BoundaryFamilies = []string{"lr1notlalr", "cyclic", "rr1la", "nullconflict", "nullable", "random", "expr", "nulltails", "nulllist", "lr2"}
@@ -90,6 +90,8 @@ func GenSyntax(r *rand.Rand, o SynGenOpts) *Grammar {
 		g = s.optAfter()
 	case "errdeep":
 		g = s.errDeep()
+	case "deadnt":
+		g = s.deadNT()
 	case "wide":
 		g = s.wide()
 	case "cyclic":
@@ -103,6 +105,9 @@ func GenSyntax(r *rand.Rand, o SynGenOpts) *Grammar {
 	}
 	if o.Ambiguous {
 		s.injectAmbiguity(g)
+	}
+	if s.r.Intn(4) == 0 {
+		splitHeads(s.r, g)
 	}
 	if o.WithErrors && !g.HasErrorAlts() {
 		s.injectErrors(g) // families that place their error alternatives themselves keep exactly those
@@ -358,6 +363,62 @@ func (s *synGen) optAfter() *Grammar {
 	}
 	if s.r.Intn(2) == 0 {
 		g.NTs[2].Alts[0], g.NTs[2].Alts[1] = g.NTs[2].Alts[1], g.NTs[2].Alts[0]
+	}
+	return g
+}
+
+// splitHeads writes the alternatives of one or two nonterminals as two separate production
+// blocks with another nonterminal's block in between (gocc allows a head to be defined in
+// several places; productions are numbered in textual order).
+func splitHeads(r *rand.Rand, g *Grammar) {
+	if len(g.NTs) < 2 {
+		return
+	}
+	for n := 1 + r.Intn(2); n > 0; n-- {
+		i := r.Intn(len(g.NTs))
+		d := g.NTs[i]
+		if len(d.Alts) < 2 {
+			continue
+		}
+		k := 1 + r.Intn(len(d.Alts)-1)
+		tail := &NTDef{Head: d.Head, Alts: append([]SAlt(nil), d.Alts[k:]...)}
+		if i == 0 && r.Intn(2) == 0 {
+			// keep the start production first, move the tail of its alternatives behind everything
+			d.Alts = d.Alts[:k]
+			g.NTs = append(g.NTs, tail)
+			continue
+		}
+		d.Alts = d.Alts[:k]
+		// place the second block after at least one other block
+		at := i + 2 + r.Intn(len(g.NTs)-i)
+		if at > len(g.NTs) {
+			at = len(g.NTs)
+		}
+		if at <= i+1 {
+			at = len(g.NTs)
+		}
+		g.NTs = append(g.NTs[:at:at], append([]*NTDef{tail}, g.NTs[at:]...)...)
+	}
+}
+
+// deadNT: a nonterminal that derives no terminal string (an unfinished rule) declared early,
+// reachable or not, with further nonterminals declared after it.
+func (s *synGen) deadNT() *Grammar {
+	s.pickTerminals(5)
+	t := s.terms
+	g := &Grammar{NTs: []*NTDef{
+		{Head: "P", Alts: []SAlt{alt(nt("Asg")), alt(nt("P"), t[0], nt("Asg"))}},
+		{Head: "Loop", Alts: []SAlt{alt(nt("Loop"), t[1])}},
+		{Head: "Asg", Alts: []SAlt{alt(nt("Lhs"), t[2], nt("Rhs"))}},
+		{Head: "Lhs", Alts: []SAlt{alt(t[3])}},
+		{Head: "Rhs", Alts: []SAlt{alt(t[3]), alt(t[4]), alt(nt("Rhs"), t[1], t[4])}},
+	}}
+	if s.r.Intn(2) == 0 {
+		// reachable through an alternative that can never be completed
+		g.NTs[2].Alts = append(g.NTs[2].Alts, alt(t[1], nt("Loop")))
+	}
+	if s.r.Intn(2) == 0 {
+		g.NTs[1], g.NTs[2] = g.NTs[2], g.NTs[1]
 	}
 	return g
 }
